@@ -88,7 +88,7 @@ package coroutines
 //@ ensures [C15 C13] err != nil ==> kerr.create(errcode(err))
 
 //@ func CreatePromise
-//@ props C01 C02 C03 C04 C08 C20
+//@ props C01 C02 C03 C04 C08 C20 C06
 //@ serves C06
 //@ ghostdb coroutine
 //@ nopanic C13
@@ -99,7 +99,7 @@ package coroutines
 //@ ensures [C15 C13] err != nil ==> kerr.create(errcode(err))
 
 //@ func AcquireLock
-//@ props C02 C09
+//@ props C02 C09 C06
 //@ ghostdb coroutine
 //@ nopanic C13
 //@ overflow C09
@@ -111,7 +111,7 @@ package coroutines
 //@ ensures [C15 C13] err != nil ==> kerr.platform(errcode(err))
 
 //@ func ReleaseLock
-//@ props C02 C09
+//@ props C02 C09 C06
 //@ ghostdb coroutine
 //@ nopanic C13
 //@ requires c != nil && r != nil && r.ReleaseLock != nil
@@ -122,7 +122,7 @@ package coroutines
 //@ ensures [C15 C13] err != nil ==> kerr.platform(errcode(err))
 
 //@ func HeartbeatLocks
-//@ props C02 C09
+//@ props C02 C09 C06
 //@ ghostdb coroutine
 //@ nopanic C13
 //@ requires c != nil && r != nil && r.HeartbeatLocks != nil
@@ -133,7 +133,7 @@ package coroutines
 //@ ensures [C15 C13] err != nil ==> kerr.platform(errcode(err))
 
 //@ func ClaimTask
-//@ props C02 C07 C20
+//@ props C02 C07 C20 C06
 //@ ghostdb coroutine
 //@ nopanic C13
 //@ overflow C07
@@ -149,7 +149,7 @@ package coroutines
 //@ ensures [C15 C13] err != nil ==> kerr.platform(errcode(err))
 
 //@ func CompleteTask
-//@ props C02 C07
+//@ props C02 C07 C06
 //@ ghostdb coroutine
 //@ nopanic C13
 //@ requires c != nil && r != nil && r.CompleteTask != nil
@@ -160,7 +160,7 @@ package coroutines
 //@ ensures [C15 C13] err != nil ==> kerr.platform(errcode(err))
 
 //@ func HeartbeatTasks
-//@ props C02 C07
+//@ props C02 C07 C06
 //@ ghostdb coroutine
 //@ nopanic C13
 //@ requires c != nil && r != nil && r.HeartbeatTasks != nil
@@ -182,7 +182,7 @@ package coroutines
 //@ ensures [C15 C13] err != nil ==> kerr.platform(errcode(err))
 
 //@ func DeleteSchedule
-//@ props C02 C10
+//@ props C02 C10 C06
 //@ ghostdb coroutine
 //@ nopanic C13
 //@ requires c != nil && r != nil && r.DeleteSchedule != nil
@@ -194,7 +194,7 @@ package coroutines
 
 //@ macro sreq() r.CreateSchedule
 //@ func CreateSchedule
-//@ props C02 C10 C20
+//@ props C02 C10 C20 C06
 //@ ghostdb coroutine
 //@ nopanic C13
 //@ requires c != nil && r != nil && r.CreateSchedule != nil
@@ -207,7 +207,7 @@ package coroutines
 //@ macro cb_post(status, shown, cb, cbid, pid, root, recv, mtype, mroot, mleaf, timeout) linearizes((!pre_promises(pid).present ==> status == t_api.StatusPromiseNotFound && post_callbacks(cbid) == pre_callbacks(cbid)) && (pre_promises(pid).present ==> (status == t_api.StatusOK || status == t_api.StatusCreated) && shown != nil && pview(shown) == pview.row(pre_promises(pid)) && (status == t_api.StatusCreated ==> !pre_callbacks(cbid).present && p.pending(pre_promises(pid)) && cview.row(post_callbacks(cbid)) == mk.cview(cbid, pid, root, recv, mtype, mroot, mleaf, timeout, T)) && (status == t_api.StatusOK ==> post_callbacks(cbid) == pre_callbacks(cbid)) && (p.pending(pre_promises(pid)) ==> post_callbacks(cbid).present)))
 
 //@ func CreateCallback
-//@ props C02 C05 C20
+//@ props C02 C05 C20 C06
 //@ ghostdb coroutine
 //@ nopanic C13
 //@ requires c != nil && r != nil && r.CreateCallback != nil && r.CreateCallback.Recv != nil
@@ -224,7 +224,7 @@ package coroutines
 //@ ensures [C15 C13] err != nil ==> kerr.platform(errcode(err))
 
 //@ func CreateSubscription
-//@ props C02 C05 C20
+//@ props C02 C05 C20 C06
 //@ ghostdb coroutine
 //@ nopanic C13
 //@ requires c != nil && r != nil && r.Kind == t_api.CreateSubscription && r.CreateSubscription != nil && r.CreateSubscription.Recv != nil
@@ -330,7 +330,7 @@ package coroutines
 // out and run again); a cursor is present exactly when the store returned a full page and then carries the
 // same filter and the sort id of the last row. K is an arbitrary index into the page.
 //@ func SearchPromises
-//@ props C04 C14
+//@ props C04 C14 C01 C02
 // a promise that is timed out goes to the state its resonate:timeout tag names: resolved only for the exact value
 // "true", rejected-timedout for anything else (C04, C14: searches report it in that state; C01)
 //@ site call completePromise assert [C04 C14 C01] (p.Tags["resonate:timeout"] == "true" ==> cmd.State == promise.Resolved) && (p.Tags["resonate:timeout"] != "true" ==> cmd.State == promise.Timedout)
@@ -354,7 +354,7 @@ package coroutines
 //@ ensures [C15 C13] err != nil ==> kerr.platform(errcode(err))
 
 //@ func SearchSchedules
-//@ props C14
+//@ props C14 C02 C10
 //@ ghostdb coroutine
 //@ nopanic C13
 //@ ghost K int
